@@ -73,6 +73,16 @@ register('C07', 'Hypothesis (element, time class, position class) points against
          'of the property; tensor Gauss integral of the evaluation over later test elements reproduces the Galerkin entry.',
          'vlib/refint.evaluate at two resolutions; preconditions of the property (1e-5 end distance, ratio <= 16) enforced and counted', 'DESIGN.md 3/C07')
 
+register('C16', 'bounded exhaustive BFS over cell refinements + Hypothesis sequences + complete enumeration of dyadic boundary segments against an integer-grid model',
+         'All refinement sequences to depth 4/5 on three domains (dedup by leaf set), generated sequences, every dyadic segment l<=6 of every unit side piece '
+         '(sampled for 7..10) in both orientations and four input forms on fresh meshes, and targeting on meshes with a generated history: tiling, 2:1 balance, '
+         'vertex uniqueness, unique owning leaf, vertex lookup, edge length.',
+         'integer grid of 2^-12 units (unit 1 or pi) with 1e-9 tolerance', 'DESIGN.md 3/C16')
+register('C08', 'Hypothesis (domain, history, boundary leaf, initial datum) against closed-form heat extensions integrated by graded Gauss; linearity, additivity, path equality',
+         'linform vs element integral of the independent closed form (1e-5 / 1e-6), linearity, additivity over halves and quarters, pointwise evaluate vs closed form, '
+         'linform_vector serial/pool/successive calls == element-wise values.',
+         'vlib/heatext.py closed forms (self-tested); two-resolution guard on the element integral', 'DESIGN.md 3/C08')
+
 NOT_YET = {}
 def main():
     props = [json.loads(l)['id'] for l in open(os.path.join(V, 'properties.jsonl'))]
